@@ -258,3 +258,23 @@ Example sf_usage :
   /\ usage_pieces (h_build_self (sf_cmd false true false))
     = Some [[112]; [45; 45; 114; 32; 60; 114; 62]; [60; 102; 62]; s_usage_sep; [112]; [60; 86; 62]].
 Proof. repeat split; vm_compute; reflexivity. Qed.
+
+(** the [OPTIONS] tag, declaratively: it is written iff some argument is not positional, is neither [--help] /
+    [--version] nor a Help / Version action, is not hidden, not required and not a member of a required group *)
+Theorem options_tag_iff c :
+  needs_options_tag c = true <->
+  exists f, In f (hc_args c) /\ ha_is_positional f = false
+    /\ opt_is (ha_long f) s_help = false /\ opt_is (ha_long f) s_version = false
+    /\ is_help_or_version_action (ha_action f) = false
+    /\ ha_hide f = false /\ ha_required f = false /\ in_required_group c f = false.
+Proof.
+  unfold needs_options_tag. rewrite existsb_exists. split.
+  - intros [f [Hf H]]. apply filter_In in Hf. destruct Hf as [Hin Hp].
+    apply andb_true_iff in H. destruct H as [H H5]. apply andb_true_iff in H. destruct H as [H H4].
+    apply andb_true_iff in H. destruct H as [H H3]. apply andb_true_iff in H. destruct H as [H1 H2].
+    apply negb_true_iff in H1, H2, H3, H4, H5, Hp. apply orb_false_iff in H1. destruct H1 as [H1a H1b].
+    exists f. repeat (split; [assumption|]). assumption.
+  - intros [f [Hin [Hp [H1a [H1b [H2 [H3 [H4 H5]]]]]]]]. exists f. split.
+    + apply filter_In. split; [exact Hin|]. rewrite Hp. reflexivity.
+    + rewrite H1a, H1b, H2, H3, H4, H5. reflexivity.
+Qed.
